@@ -321,6 +321,7 @@ void Net::pumpPeerSend(Conn *c)
         k = std::min(k, remaining);
         if (c->nextSeg) k = std::min<uint64_t>(c->nextSeg, remaining); // a size chosen earlier that did not fit yet
         if (k > room && k <= c->window) { c->nextSeg = k; break; }      // silly-window avoidance: wait until the whole segment fits
+        if (k > c->window && room < std::min<uint64_t>(remaining, std::max<uint64_t>(1, c->window / 2))) break; // ... or, for a segment larger than the window, until half the window is free
         c->nextSeg = 0;
         k = std::min(k, room);
         uint64_t pace = c->paceHi ? c->rng.range(c->paceLo, c->paceHi) : 0;
